@@ -229,6 +229,12 @@ class World:
             t = z3.Const("t", self.sort(T.TYPE))
             sub = self.funcs["subclass"]
             ax.append(z3.ForAll([t], sub(t, t), patterns=[sub(t, t)]))
+        # every value of the Event sort is an instance of workflows.events.Event (pydantic validates the fields
+        # that are declared as events)
+        if "type_of<Event>" in self.funcs and "Event" in self.type_consts and "subclass" in self.funcs:
+            e = z3.Const("ev", self.sort(T.EVENT))
+            tf = self.funcs["type_of<Event>"]
+            ax.append(z3.ForAll([e], self.funcs["subclass"](tf(e), self.type_consts["Event"]), patterns=[tf(e)]))
         return ax
 
     # ------------------------------------------------- annotation resolution
